@@ -1033,6 +1033,14 @@ def impl_app(case):
         app_w, app_a = build_tree(tree, "wsgi"), build_tree(tree, "asgi")
     except Exception as e:  # noqa  (a Route / Subpaths that cannot be constructed)
         return [["cfg"]]
+    import zlib
+    if zlib.crc32(repr(case).encode("utf-8", "surrogatepass")) & 1:
+        # every other case: the same application objects have answered two other requests before (what an application
+        # answers is a function of the request, not of its history)
+        for wpath in ("/", (path or "") + "/x"):
+            e0, s0, m0 = render("GET", b"", [], ["127.0.0.1", 9], [], path=wpath, root="")
+            response_of_wsgi(app_w, e0)
+            response_of_asgi(app_a, s0, m0)
     env, scope, msgs = render(method, b"", headers, ["127.0.0.1", 9], [], path=path, root=root)
     return [canon_answer(response_of_wsgi(app_w, env)), canon_answer(response_of_asgi(app_a, scope, msgs))]
 
